@@ -245,7 +245,7 @@ def params(tier):
         'ctx': (2, 1) if q else (3, 2),        # context size for small leaves, for big leaves
         'int_range': 16700 if q else 2 ** 20 + 300,
         'tails': 2 if q else 3,
-        'inj_parts': 8,
+        'inj_parts': 4,
     }
 
 
@@ -326,15 +326,16 @@ def judge_bytes(m, how):
     """Strictness judgement of one byte string.  Returns (outcome label, [(descriptor, detail)])."""
     rk, rv = ref_verdict(m)
     ik, iv = impl_decode(m)
+    il = 'raises' if ik == 'raise' else 'returns'
     if rk == 'soft':
-        return f'{how}|ref no-verdict {rv}|impl {ik}', None
+        return f'{how}|ref no-verdict {rv}|impl {il}', None
     if rk == 'rej':
         if ik == 'ret':
             return (f'{how}|ref rejects {rv}|impl RETURNS',
                     [(REJECT_DESCRIPTOR[rv], f'{m.hex()} ({how}): reference rejects ({rv}); unforge_micheline returned {iv!r:.300}')])
         return f'{how}|ref rejects {rv}|impl raises', []
     canonical = R.encode(rv) == m
-    lab = f'{how}|ref accepts {"canonical" if canonical else "non-canonical"}|impl {ik}'
+    lab = f'{how}|ref accepts {"canonical" if canonical else "non-canonical"}|impl {il}'
     if ik == 'raise':
         if canonical:
             return lab, [('unforge raises on the canonical encoding of an expression',
